@@ -163,15 +163,21 @@ func fuzzRapid[C any](f *testing.F, id, part, test string, gen func(*rapid.T) C,
 	}))
 }
 
-func FuzzC01(f *testing.F)     { fuzzRapid(f, "C01", "fuzz-roundtrip", "TestC01", genWireCase, checkC01) }
-func FuzzC02(f *testing.F)     { fuzzRapid(f, "C02", "fuzz-wire", "TestC02", genWireCase, checkC02) }
-func FuzzC03(f *testing.F)     { fuzzRapid(f, "C03", "fuzz-decode", "TestC03", genReadCase, checkC03) }
-func FuzzC04Hist(f *testing.F) { fuzzRapid(f, "C04", "fuzz-history", "TestC04Hist", genHistCase, checkC04Hist) }
-func FuzzC06(f *testing.F)     { fuzzRapid(f, "C06", "fuzz-limit", "TestC06", genLimitCase, checkC06) }
-func FuzzC08(f *testing.F)     { fuzzRapid(f, "C08", "fuzz-control", "TestC08", genCtlCase, checkC08) }
-func FuzzC12(f *testing.F)     { fuzzRapid(f, "C12", "fuzz-serverhandshake", "TestC12", genServerHSCase, checkC12) }
-func FuzzC13(f *testing.F)     { fuzzRapid(f, "C13", "fuzz-origin", "TestC13", genOriginCase, checkC13) }
-func FuzzC14(f *testing.F)     { fuzzRapid(f, "C14", "fuzz-clienthandshake", "TestC14", genClientHSCase, checkC14) }
+func FuzzC01(f *testing.F) { fuzzRapid(f, "C01", "fuzz-roundtrip", "TestC01", genWireCase, checkC01) }
+func FuzzC02(f *testing.F) { fuzzRapid(f, "C02", "fuzz-wire", "TestC02", genWireCase, checkC02) }
+func FuzzC03(f *testing.F) { fuzzRapid(f, "C03", "fuzz-decode", "TestC03", genReadCase, checkC03) }
+func FuzzC04Hist(f *testing.F) {
+	fuzzRapid(f, "C04", "fuzz-history", "TestC04Hist", genHistCase, checkC04Hist)
+}
+func FuzzC06(f *testing.F) { fuzzRapid(f, "C06", "fuzz-limit", "TestC06", genLimitCase, checkC06) }
+func FuzzC08(f *testing.F) { fuzzRapid(f, "C08", "fuzz-control", "TestC08", genCtlCase, checkC08) }
+func FuzzC12(f *testing.F) {
+	fuzzRapid(f, "C12", "fuzz-serverhandshake", "TestC12", genServerHSCase, checkC12)
+}
+func FuzzC13(f *testing.F) { fuzzRapid(f, "C13", "fuzz-origin", "TestC13", genOriginCase, checkC13) }
+func FuzzC14(f *testing.F) {
+	fuzzRapid(f, "C14", "fuzz-clienthandshake", "TestC14", genClientHSCase, checkC14)
+}
 
 // C11's last clause (sharing one PreparedMessage / one write buffer pool among
 // many connections is race-free) reuses the concurrent legs of C19 and C20.
@@ -182,8 +188,12 @@ func TestC11SharedPool(t *testing.T) {
 	RunProp(t, "C11", "shared-pool", func(rt *rapid.T) PoolCase { c := genPoolCase(rt); c.Conc = true; return c }, checkC20)
 }
 
-func TestC03Multi(t *testing.T) { RunProp(t, "C03", "interleaved-readers", genMultiReadCase, checkC03Multi) }
-func TestC01Multi(t *testing.T) { RunProp(t, "C01", "interleaved-readers", genMultiReadCase, checkC03Multi) }
+func TestC03Multi(t *testing.T) {
+	RunProp(t, "C03", "interleaved-readers", genMultiReadCase, checkC03Multi)
+}
+func TestC01Multi(t *testing.T) {
+	RunProp(t, "C01", "interleaved-readers", genMultiReadCase, checkC03Multi)
+}
 
 // C02's clause on PreparedMessages (frames built once per variant and reused on
 // every connection they fit) is judged by the C19 machinery on shared messages.
